@@ -21,7 +21,7 @@ fn run_case(dir: &std::path::Path, bytes: &[u8]) -> String {
     }
 }
 
-const TOKENS: [&[u8]; 40] = [b"a.patch", b"b.patch", b"dir/c.patch", b"-p0", b"-p1", b"-p2", b"-p", b"1", b"-R", b"-Rp1", b"-p1R", b"-RR",
+const TOKENS: [&[u8]; 42] = [b"-p18446744073709551615", b"-p4000000000", b"a.patch", b"b.patch", b"dir/c.patch", b"-p0", b"-p1", b"-p2", b"-p", b"1", b"-R", b"-Rp1", b"-p1R", b"-RR",
     b"--strip=2", b"--strip", b"3", b"--reverse", b"--reverse=1", b"--strip=", b"-px", b"-p+1", b"-p-1", b"-p01", b"-p18446744073709551616",
     b"--", b"-", b"-x", b"--unknown", b"#c", b"x#y", b"-pR", b"--strip=2=3", b"-p1p2", b"-R-p3", b"\xc3\xa9.patch", b"-p\xc3\xa9", b"--str", b"-Rx", b"-p 2", b"extra", b"-p1 -p2"];
 const SEPS: [&[u8]; 6] = [b" ", b"  ", b"\t", b" \t ", b"\x0b", b"\x0c"];
